@@ -294,6 +294,9 @@ def r3(ctx, cfg):
                     tag = c[2][0]
                 elif c[0] in ("bool",):
                     others.append(c)
+                elif c[0] == "variant_in" and not is_param(c[1], pname):
+                    # e.g. the exhausted / not exhausted edge of a scan over the namespace (`all(..)` written as a loop)
+                    others.append(("bool", ("variant", (c[1],), True)))
             cells[tag].append((val, others))
         ctx.ob(R, key, "%s-bound-defined-per-case" % pname, not cells[None] and len(cells["Some"]) == 1 and len(cells["None"]) >= 1,
                "%s bound has definitions outside the Some/None cases of `%s` (%s)" % (pname, pname, {k: len(v) for k, v in cells.items()}), fn=f,
@@ -345,26 +348,19 @@ def r3(ctx, cfg):
         ok = ok and ret[0] == "agg" and ret[1] == "tuple" and len(ret[2]) == 2
         if ok:
             k, v = peel(ret[2][0][1]), peel(ret[2][1][1])
-            ok = k[0] == "call" and k[1] == NH + "trim" and is_param(k[2][0], "namespace") and \
-                contains(k[2][1], lambda x: x[0] == "field" and x[2] == "0" and peel(x[1])[0] == "bound") and \
+            # key' = key[len(namespace)..]  (the helper `trim` is always spliced - vlib/inline.py ALWAYS_INLINE)
+            ok = k[0] == "call" and k[1].rsplit("::", 1)[-1] == "index" and len(k[2]) == 2 and \
+                contains(k[2][0], lambda x: x[0] == "field" and x[2] == "0" and peel(x[1])[0] == "bound") and \
                 v[0] == "field" and v[2] == "1" and peel(v[1])[0] == "bound"
+            if ok:
+                r = peel(k[2][1])
+                ok = r[0] == "agg" and r[1].endswith("RangeFrom") and peel(r[2][0][1])[0] == "call" and peel(r[2][0][1])[1].endswith("len") and \
+                    is_param(peel(r[2][0][1])[2][0], "namespace")
     ctx.ob(R, key, "yields(trim(prefix,k), v)", ok, "mapping closure does not yield (trim(prefix, key), value)", fn=f,
            sample="map(|(k, v)| (trim(&prefix, &k), v))")
     ret = P.ret(f)
     ctx.ob(R, key, "returns-mapped-iterator", contains(ret, lambda x: x[0] == "call" and x[1] == "std::iter::Iterator::map"),
            "range_with_prefix does not return the mapped iterator", fn=f, sample="Box::new(mapped)")
-    # trim drops exactly len(namespace) leading bytes
-    key = NH + "trim"
-    f = ctx.need_fn(R, key)
-    if f is not None:
-        ix = [(b, t) for b, t in f.calls() if t["callee"]["name"] == "index"]
-        ok = len(ix) == 1
-        if ok:
-            a = P.call_args(f, ix[0][1], ix[0][0])
-            r = peel(a[1])
-            ok = is_param(a[0], "key") and r[0] == "agg" and r[1].endswith("RangeFrom") and \
-                peel(r[2][0][1])[0] == "call" and peel(r[2][0][1])[1].endswith("len") and is_param(peel(r[2][0][1])[2][0], "namespace")
-        ctx.ob(R, key, "trim=key[len(namespace)..]", ok, "trim is not key[namespace.len()..]", fn=f, sample="key[namespace.len()..].to_vec()")
 
 
 def _trace_local(P, f, op, bid):
